@@ -327,7 +327,8 @@ class C22(Property):
         if uses_shell and (rel_src or rel_dst):
             which = "src+dst" if rel_src and rel_dst else ("src" if rel_src else "dst")
             ctx.fail(f"transfer:{cls}:unquoted-{which}-path", detail, replay)
-        elif obs["status"] == "ok" and obs["diff"] and case["dst_exists_dir"] and case["src_is_dir"] and route.startswith("rem") and route.split("->")[1].startswith("local"):
+        elif obs["status"] == "ok" and obs["diff"] and case["dst_exists_dir"] and case["src_is_dir"] and cls == "remote->local":
+            # root cause, whatever the kind of remote source (plain, wrapped, wrapped with mounts) and the writable flag: extract_tar_stream
             ctx.fail("transfer:remote->local:directory-into-existing-directory:children-beside-basename", detail, replay)
         elif (obs["status"] == "ok" and cls == "remote->remote" and not case["src_is_dir"] and not case["dst_exists_dir"]
               and case["src_name"] != case["dst_name"] and len(obs["diff"]) == 1 and "True) != ('f'" in obs["diff"][0] and "False)" in obs["diff"][0]):
